@@ -81,6 +81,14 @@ func (t *Interface) Extend(x Type) error {
 	return t.Base.Extend(x)
 }
 
+func (t *Interface) unextend() func() {
+	base, nf := t.Base.unextend(), len(t.fields.list)
+	return func() {
+		base()
+		t.fields.truncate(nf)
+	}
+}
+
 // GetField returns the field matching the name or nil if not found.
 func (t *Interface) GetField(name string) *FieldDef {
 	return t.fields.get(name)
